@@ -21,12 +21,14 @@ def stateless : List (String × (List String → String)) :=
 def heapExtensions : List (Sess → List String → Option (Sess × String)) :=
   [HeapStim.step, HeapOpenQL.step, HeapDraw.step]
 
-def heapStep (s : Sess) (toks : List String) : Sess × String :=
+def heapStepCore (s : Sess) (toks : List String) : Sess × String :=
   let r := step s toks
   if r.2 != "bad-op" then r else
   match heapExtensions.findSome? (fun f => f s toks) with
   | some r' => r'
   | none => r
+
+def heapStep : Sess → List String → Sess × String := guarded heapStepCore
 
 partial def loop (h : IO.FS.Stream) (out : IO.FS.Stream) (s : Sess) : IO Unit := do
   let line ← h.getLine
